@@ -123,6 +123,10 @@ class VdirStore(Store):
             except NotImplementedError:
                 # This file type doesn't support UIDs
                 uid = None
+            if name in self._fname_to_uid:
+                old_uid = self._fname_to_uid[name][1]
+                if old_uid is not None and old_uid != uid:
+                    del self._uid_to_fname[old_uid]
             self._fname_to_uid[name] = (etag, uid)
             if uid is not None:
                 self._uid_to_fname[uid] = (name, etag)
